@@ -488,6 +488,7 @@ Definition d_wctor (x : xval) : option wctor :=
   | XL [XN 0] => Some WNew
   | XL [XN 1; XN c] => Some (WCap (N.to_nat c))
   | XL [XN 2; XB init; XN spare] => Some (WFrom init (N.to_nat spare))
+  | XL [XN 2; XB init; XN spare; XN _] => Some (WFrom init (N.to_nat spare))   (* in which representation: no concern of the model *)
   | _ => None
   end.
 
@@ -583,13 +584,14 @@ Definition x_rres (total : nat) (r : rres) : xval :=
 Definition d_patience (l : list xval) : option (option nat) :=
   match l with
   | [] => Some None
-  | [XL []] => Some None
-  | [XL [XN k]] => Some (Some (N.to_nat k))
-  | [XL [XN 0; XN _]] => Some (Some O)
+  | XL [] :: _ => Some None
+  | XL [XN k] :: _ => Some (Some (N.to_nat k))
+  | XL [XN 0; XN _] :: _ => Some (Some O)
   | _ => None
   end.
 
-(** input: (L (B init) (N spare) (N max) (L ev...) (B junk) [patience]) *)
+(** input: (L (B init) (N spare) (N max) (L ev...) (B junk) [patience [storage]]); the storage (which representation
+    of [BytesMut] the real side hands in) only changes how the allocation grows, which the theorems leave open *)
 Definition run_read_gen (legacy guard : bool) (x : xval) : xval :=
   match x with
   | XL (XB init :: XN spare :: XN max :: evs :: XB pat :: pt) =>
@@ -684,8 +686,19 @@ Definition run_files_spec (x : xval) : xval :=
   | _ => bad_input
   end.
 
+(** input: (L (N codec) (N level) (B body) (B junk)): a real encoder writes the compressed body into a
+    [WriteableBytes] (which by [writeable_is_append] holds exactly the bytes written, in order) and the standard
+    decoder reads it back: what comes out is the body.  The codecs themselves are not modelled. *)
+Definition run_encode (x : xval) : xval :=
+  match x with
+  | XL [XN codec; XN level; XB body; XB pat] => x_outcome XB (Ok body)
+  | _ => bad_input
+  end.
+
 Definition buffers_table : list (bytes * (xval -> xval)) :=
-  [ (B "buf.writeable", run_writeable);
+  [ (B "buf.encode", run_encode);
+    (B "buf.encode.spec", run_encode);
+    (B "buf.writeable", run_writeable);
     (B "buf.writeable.spec", run_writeable_spec);
     (B "buf.replace", run_replace);
     (B "buf.replace.spec", run_replace_spec);
